@@ -20,7 +20,7 @@ CLAIMED = {
    technique="Coq proof: trie walk = PSL algorithm (induction over rules and labels) + computed side conditions on the regenerated list + differential correspondence",
    ref="6 C08"),
  "C14": dict(
-   text="Proved in Coq for all strings (closed under the global context): safely_quote returns pure ASCII whose tokenisation is exactly the input's with every escape kept and every other character escaped unless unreserved or '/', hence decodes to the same bytes, and is idempotent; upper_quoted changes only the case of hex digits inside valid escapes (same bytes, idempotent); tokenisation is a bijection on well-formed token lists; the unsafe sets read from the source contain every delimiter / '%' / space the component requires (computed side condition, breaks when a table entry is dropped); the generated regex ASTs the model reads abstractly are pinned structurally. PARTIAL for the four safely_unquote_*: the property formula (decider `unquote_ok` of Spec/C14.v: output re-tokenises into kept escapes and once-decoded characters, no delimiter / space / control created, same bytes) plus idempotence is evaluated, extracted, on the implementation's output for every string of <= 2 (quick) / 3 (thorough) tokens over the property's 42-token alphabet and random longer ones, and the faithful model is compared with the implementation on the same inputs; its for-all-strings proof is not finished.",
+   text="Proved in Coq for all strings (closed under the global context): safely_quote returns pure ASCII whose tokenisation is exactly the input's with every escape kept and every other character escaped unless unreserved or '/', hence decodes to the same bytes, and is idempotent; upper_quoted changes only the case of hex digits inside valid escapes (same bytes, idempotent); tokenisation is a bijection on well-formed token lists; the unsafe sets read from the source contain every delimiter / '%' / space the component requires (computed side condition, breaks when a table entry is dropped); the generated regex ASTs the model reads abstractly are pinned structurally. for the four safely_unquote_* proved for all strings: no raw space is ever left in the output and a string holding no '%' is returned unchanged but for its spaces. PARTIAL for the rest of the safely_unquote_* statement: the property formula (decider `unquote_ok` of Spec/C14.v: output re-tokenises into kept escapes and once-decoded characters, no delimiter / space / control created, same bytes) plus idempotence is evaluated, extracted, on the implementation's output for every string of <= 2 (quick) / 3 (thorough) tokens over the property's 42-token alphabet and random longer ones, and the faithful model is compared with the implementation on the same inputs; its for-all-strings proof is not finished.",
    note="Trusted: Coq kernel, translator, extraction, driver, harness. ASCII_RE / QUOTED_SPLIT_RE / QUOTED_RE / LOWERCASE_QUOTED_RE enter the model through their reading as maximal ASCII runs / valid-escape tokens (pinned by reflexivity lemmas on the generated ASTs and exercised by the regex correspondence). Lone surrogates are outside str scope (quote() raises on them).",
    technique="Coq proofs on a token model of percent-escapes + extracted property deciders run on implementation outputs + differential correspondence",
    ref="6 C14"),
@@ -80,7 +80,7 @@ CLAIMED = {
    technique='Coq model + query-order and pre-step theorems + transformation decider + differential correspondence',
    ref='6 C04'),
  "C05": dict(
-   text="Proved in Coq for every url and every option setting: normalize_url never raises (the model's only abnormal outcome is an unanswered oracle question) and an unparseable url (parser or port ValueError) is returned unchanged. PARTIAL: 'each part of the result comes from the input' (host = input host minus whole irrelevant labels / 'amp-', non-default port kept, query a sub-list) and 'an option switched off preserves its part' are decided on the implementation over uniformly sampled option settings; the extracted model is compared with the implementation (string and unsplit=False) on the same cases.",
+   text="Proved in Coq for every url and every option setting: normalize_url never raises (the model's only abnormal outcome is an unanswered oracle question) and an unparseable url (parser or port ValueError) is returned unchanged; the query stage only deletes (every item of the normalized query is the unquoted, in quoted mode re-quoted, image of an input item the filters keep) and without sort_query keeps the items' order. PARTIAL: 'each other part of the result comes from the input' (host = input host minus whole irrelevant labels / 'amp-', non-default port kept, query a sub-list) and 'an option switched off preserves its part' are decided on the implementation over uniformly sampled option settings; the extracted model is compared with the implementation (string and unsplit=False) on the same cases.",
    note='Trusted: Coq kernel, translator (regex ASTs, query tables, ISO codes, PSL), extraction, driver, harness; urllib / str models (leaf correspondence); idna / ipaddress oracles; platform_aware=True is exercised on the implementation only (the platform parsers are not in the model).',
    technique='Coq totality proof + component deciders + differential correspondence over sampled option space',
    ref='6 C05'),
